@@ -43,5 +43,9 @@ def jobs1(tier, sl):
     ] + [
         J('L3_query_cancel.act%d' % a, 'MODE_L3', 'remove/find by name and handle, remove_all_call_out at top level: report due-current_time, removed entry gone and released once, others keep their due time',
           inp + ', action, target entry', tier, defs=dm + ['ACT=%d' % a], targets=[], opt_witness=['remove_middle_of_three', 'remove_all'])
-        for a in range(6)
+        for a in range(5)
+    ] + [
+        J('L3_query_cancel.act5.nx%d' % nx, 'MODE_L3', 'remove_all_call_out(owner) at top level with %d entries in slot X: every entry of the owner (and of destructed owners) gone and released once, others keep their due time' % nx,
+          inp + ', target entry', tier, defs=dm + ['ACT=5', 'NXC=%d' % nx], targets=['remove_all_call_out'], timeout=(400 if tier == 'quick' else 2400), opt_witness=['remove_middle_of_three', 'remove_all'])
+        for nx in (range(0, 2) if tier == 'quick' else range(0, 4))
     ]
